@@ -75,6 +75,11 @@ def _randint(a, b):
     w = _CUR
     if w is None:
         return _random.randint(a, b)
+    if (a, b) == (0, 2 ** 20):
+        # the loader's draw of a policy index for a protect entry without one: a draw per entry (reproducible), not the jitter fraction - every entry would
+        # get the same index otherwise, which is the harness's doing and not the loader's
+        rng = w.__dict__.setdefault('index_rng', _random.Random(0x1d5eed))
+        return rng.randint(a, b)
     return a + int((b - a) * w.jitter)
 
 
